@@ -157,9 +157,9 @@ class Check:
         return self.R.ctx(rel, qual)
 
     # -- formula comparison -----------------------------------------------------------
-    def formula(self, kind, name, where, got, want, domain=None, names=None, n=120):
-        """Compare a reconstructed term with the specified one."""
-        res = S.equiv(got, want, domain=domain, n=n)
+    def formula(self, kind, name, where, got, want, domain=None, names=None, n=120, assume=None):
+        """Compare a reconstructed term with the specified one (under the path condition `assume`, if given)."""
+        res = S.equiv(got, want, domain=domain, n=n, assume=assume)
         g, w = S.show(got, names), S.show(want, names)
         if res.equal is True:
             return self.holds(kind, name, where, f"{res.method}", expected=w[:600], found=g[:600])
